@@ -20,7 +20,7 @@ from vlib.stubs import install_json_stub
 
 ID = "C19"
 FUNCTIONS = ["fs.load_tree_from_fs", "fs.FileSystemEntry.__init__", "fs.FileSystemTree.serialize_mapper", "fs.FileSystemTree.deserialize_mapper", "Tree.save", "Tree.load", "Node.to_list_iter"]
-STUBS = ["S-dict", "S-hash", "S-fmt", "S-fs (FakePath: iterdir/is_dir/is_file/stat/name/ordering as pathlib documents them)", "S-json"]
+STUBS = ["S-dict", "S-hash", "S-fmt", "S-fs (FakePath: iterdir/is_dir/is_file/stat/name/ordering as pathlib documents them; FakeOs: walk/listdir/scandir/path over the same model if nutree.fs uses `os`)", "S-json"]
 ASSUMPTIONS = [
     "entry names are arbitrary distinct one-character strings per folder; pathlib orders paths component-wise by string comparison",
     "the real OS file system (symlinks, permissions, races, name normalisation) is outside the claim; the native pass uses a real temporary directory with the realised names",
@@ -29,8 +29,8 @@ ASSUMPTIONS = [
 TIMEOUTS = {"quick": (600, 120), "thorough": (3000, 240)}
 
 # directory descriptions: "f" = file, list = folder
-DIRS_QUICK = [[], ["f"], ["f", "f"], ["f", []], [["f"], "f"], [[], ["f"]], ["f", "f", ["f"]]]
-DIRS_MORE = [[[["f"]], "f"], [["f", "f"], []], ["f", ["f", []]], [["f"], ["f"], "f"], ["f", "f", "f"], [[], [], "f"], [["f", ["f"]]]]
+DIRS_QUICK = [[], ["f"], ["f", "f"], ["f", []], [["f"], "f"], [[], ["f"]], ["f", "f", ["f"]], [[[]], ["f"]]]
+DIRS_MORE = [[[["f"]], "f"], [["f", "f"], []], ["f", ["f", []]], [["f"], ["f"], "f"], ["f", "f", "f"], [[], [], "f"], [["f", ["f"]]], [[["f"]], ["f"]], [["f"], [[]]]]
 
 
 def BOUNDS(tier):
@@ -82,11 +82,18 @@ class FakeStat:
 class FakePath:
     """In-memory stand-in for pathlib.Path as used by nutree.fs."""
 
-    def __init__(self, parts, node=None):
+    def __init__(self, parts, node=None, *more):
         if isinstance(parts, FakePath):
             self.parts, self.node = parts.parts, parts.node
+            # Path(folder, "name", ...): descend by entry name
+            for nm in ((node,) if node is not None else ()) + more:
+                kid = [c for c in self.node["listing"] if c["name"] == nm][0]
+                self.parts, self.node = self.parts + (nm,), kid
         else:
             self.parts, self.node = parts, node
+
+    def __truediv__(self, nm):
+        return FakePath(self, nm)
 
     @property
     def name(self):
@@ -116,6 +123,72 @@ class FakePath:
 
     def __hash__(self):
         return 11
+
+
+class _FakeOsPath:
+    """os.path over FakePath (basename/join/isdir/isfile); anything else is the real os.path."""
+
+    @staticmethod
+    def basename(p):
+        return p.name if isinstance(p, FakePath) else os.path.basename(p)
+
+    @staticmethod
+    def dirname(p):
+        return FakePath(p.parts[:-1], None) if isinstance(p, FakePath) else os.path.dirname(p)
+
+    @staticmethod
+    def join(p, *names):
+        return FakePath(p, *names) if isinstance(p, FakePath) else os.path.join(p, *names)
+
+    @staticmethod
+    def isdir(p):
+        return p.is_dir() if isinstance(p, FakePath) else os.path.isdir(p)
+
+    @staticmethod
+    def isfile(p):
+        return p.is_file() if isinstance(p, FakePath) else os.path.isfile(p)
+
+    def __getattr__(self, name):
+        return getattr(os.path, name)
+
+
+class FakeOs:
+    """Stand-in for the `os` module inside nutree.fs, should the implementation
+    scan with os.walk/os.listdir/os.scandir instead of pathlib (S-fs): the
+    same in-memory directory, the same listing order, os.walk's documented
+    top-down protocol (in-place edits of `dirnames` steer the walk)."""
+
+    path = _FakeOsPath()
+
+    @staticmethod
+    def fspath(p):
+        return p if isinstance(p, FakePath) else os.fspath(p)
+
+    @staticmethod
+    def listdir(p):
+        return [c["name"] for c in p.node["listing"]]
+
+    @staticmethod
+    def scandir(p):
+        return list(p.iterdir())
+
+    @staticmethod
+    def stat(p):
+        return p.stat()
+
+    @staticmethod
+    def walk(top, topdown=True, onerror=None, followlinks=False):
+        dirnames = [c["name"] for c in top.node["listing"] if c["dir"]]
+        filenames = [c["name"] for c in top.node["listing"] if not c["dir"]]
+        if topdown:
+            yield top, dirnames, filenames
+        for nm in list(dirnames):
+            yield from FakeOs.walk(FakePath(top, nm), topdown, onerror, followlinks)
+        if not topdown:
+            yield top, dirnames, filenames
+
+    def __getattr__(self, name):
+        return getattr(os, name)
 
 
 def materialise(desc, x):
@@ -168,9 +241,22 @@ def expected(folder, sort):
     return [(k, expected(k, sort) if k["dir"] else []) for k in order]
 
 
-def compare(children, exp):
+def compare(children, exp, ordered=True):
+    """`ordered=False` (sort=False): the property fixes no order for an unsorted
+    scan, so each folder's nodes are matched to the entries by name (names are
+    distinct per folder)."""
     if len(children) != len(exp):
         return "entry-count"
+    if not ordered:
+        left = list(children)
+        matched = []
+        for k, sub in exp:
+            hit = [nd for nd in left if nd.data.name == k["name"]]
+            if not hit:
+                return "name"
+            left = [nd for nd in left if nd is not hit[0]]
+            matched.append(hit[0])
+        children = matched
     for nd, (k, sub) in zip(children, exp):
         e = nd.data
         if e.name != k["name"]:
@@ -182,7 +268,7 @@ def compare(children, exp):
                 return "size"
             if e.mdate != k["mtime"]:
                 return "mdate"
-        r = compare(nd.children, sub)
+        r = compare(nd.children, sub, ordered)
         if r:
             return r
     return ""
@@ -205,25 +291,29 @@ def body(ctx, desc, x):
         base = tempfile.mkdtemp(prefix="nutree-c19-", dir="/var/tmp")
         try:
             ok = _mkfs(base, model)
-            if not ok:
-                return ""  # names the real file system cannot represent
-            tree = load_tree_from_fs(base, sort=True)  # real listing order is not controllable: sorted form only
-            exp = expected(model, True)
-            c = compare(tree.children, _native_exp(exp))
-            if c:
-                return "load:" + c
+            if ok:  # else: names the real file system cannot represent - in-memory model only
+                tree = load_tree_from_fs(base, sort=True)  # real listing order is not controllable: sorted form only
+                exp = expected(model, True)
+                c = compare(tree.children, _native_exp(exp))
+                if c:
+                    return "load:" + c
         finally:
             shutil.rmtree(base, ignore_errors=True)
     saved = nfs.Path
+    saved_os = getattr(nfs, "os", None)
     nfs.Path = FakePath
+    if saved_os is not None:
+        nfs.os = FakeOs()
     try:
         tree = load_tree_from_fs(FakePath(("root",), model), sort=sort)
     finally:
         nfs.Path = saved
+        if saved_os is not None:
+            nfs.os = saved_os
     if not isinstance(tree, FileSystemTree):
         return "load:class"
     exp = expected(model, sort)
-    c = compare(tree.children, exp)
+    c = compare(tree.children, exp, ordered=bool(sort))
     if c:
         return "load:" + c
     # save -> load through the FileSystemTree mappers
@@ -233,9 +323,16 @@ def body(ctx, desc, x):
     t2 = FileSystemTree.load(fp)
     if not isinstance(t2, FileSystemTree):
         return "reload:class"
-    c = compare(t2.children, exp)
+    c = compare(t2.children, exp, ordered=bool(sort))
     if c:
         return "reload:" + c
+    if not sort:
+        # save/load must preserve whatever order the scan produced
+        def _names(n):
+            return [(c.data.name, _names(c)) for c in n.children]
+
+        if _names(tree.system_root) != _names(t2.system_root):
+            return "reload:order"
     return ""
 
 
